@@ -407,7 +407,9 @@ func (v *View) checkC08(res *Result) {
 		switch e.Kind {
 		case "cb.promote":
 			res.Obs["c08.promotes"]++
-			if P[e.Inst] > D[e.Inst] {
+			if P[e.Inst] > D[e.Inst] && !v.inStopAt(e.Inst, idx) {
+				// (a Start issued while a stop call of the same instance is still running races
+				// with that call's demotion callback: not sequential use of the API)
 				why := v.lastTermCause(e.Inst, idx)
 				if why == "stop" {
 					// was the previous term ended by a StopWithContext that does not wait for the callback?
@@ -547,9 +549,6 @@ func (v *View) checkC18(res *Result) {
 		for mi < len(v.Muts) && v.Muts[mi].Seq <= idx {
 			m := v.Muts[mi]
 			mi++
-			if m.By != "outside" && m.By != "" && (m.Op == "Create" || m.Op == "Update") {
-				lastOwnRev[m.By] = m.Rev
-			}
 			pid, _, _ := DecodeIDToken([]byte(m.PrevVal))
 			nid, _, _ := DecodeIDToken([]byte(m.Val))
 			if m.Op != "Update" || pid != nid || m.PrevOp != "PUT" {
@@ -557,6 +556,16 @@ func (v *View) checkC18(res *Result) {
 			}
 		}
 		switch e.Kind {
+		case "store.return":
+			// the revision of the latest write the instance knows to have succeeded: the
+			// acknowledgement must have arrived, and for a refresh within the library's own
+			// time-out (a late ack is a failed heartbeat from the instance's point of view)
+			if c := v.Calls[e.Call]; c != nil && e.OK && (e.Op == "Create" || e.Op == "Update") && c.Apply >= 0 && c.OK {
+				is := v.instSpec(e.Inst)
+				if (e.Op == "Create" || is == nil || c.ReturnVT-c.IssueVT <= opTimeout(is.H)) && c.Rev > lastOwnRev[e.Inst] {
+					lastOwnRev[e.Inst] = c.Rev // revisions are monotonic: a late ack of an older write does not count
+				}
+			}
 		case "transition":
 			res.Obs["c18.transitions"]++
 			prev, ok := lastTo[e.Inst]
@@ -668,6 +677,10 @@ func (v *View) checkC18Convergence(res *Result) {
 					s.lastChange = m.VT
 				}
 				s.owner, s.live = nid, true
+				if m.By == "outside" {
+					// a record forged by the outside party has no well-defined owner id
+					s.owner = ""
+				}
 			default:
 				s.lastChange = m.VT
 				s.live = false
@@ -686,7 +699,11 @@ func (v *View) checkC18Convergence(res *Result) {
 			if s == nil || !s.live || s.owner == "" {
 				continue
 			}
-			if e.VT-s.lastChange < bound || e.VT-lastTrans[e.Inst] < bound {
+			from := s.lastChange
+			if lastTrans[e.Inst] > from {
+				from = lastTrans[e.Inst]
+			}
+			if e.VT-from < bound+v.slack(from, e.VT) {
 				continue
 			}
 			// a call of this follower held by the harness (breakpoint) or hanging keeps its
